@@ -90,7 +90,7 @@ Freeze ==
   /\ mode' = "frozen"
   /\ sid' = TLCGet(1)
   /\ TLCSet(1, TLCGet(1) + 1)
-  /\ PrintT("EDGE " \o ToString(sid) \o " " \o ToString(TLCGet(1) - 1) \o " " \o ToJson([op |-> "freeze", acct |-> "A1", frozen |-> TRUE, exp |-> "ok"]))
+  /\ PrintT("EDGE " \o ToString(sid) \o " " \o ToString(TLCGet(1) - 1) \o " " \o ToJson([op |-> "tx", ixs |-> <<[op |-> "freeze", acct |-> "A1", frozen |-> TRUE], [op |-> "freeze", acct |-> "A7", frozen |-> TRUE]>>, exp |-> "ok"]))
 
 Init == mode = "base" /\ sid = 0 /\ TLCSet(1, 1)
 Next ==
